@@ -366,3 +366,10 @@ PROPS["C08"] = {
     "assumptions": ["hand-written model Model/Miner.lean of strategy.go/miner.go; agreement checked by the correspondence stream on every run",
                     "one round at a time (generateBlocks is a single goroutine); chain acceptance is scripted"],
 }
+
+# the configuration harness also serves C11 ("no other operation deletes plot data"): its fault scenarios
+# (wallet failing while a configuration creates spaces) and every generated configuration call are checked for
+# plot files that disappear; failures are keyed C11:configure-deleted-files
+PROPS["C11"]["harnesses"].append({"name": "config", "pkg": "harness/config", "driver": "MassVerif/Driver/Config.lean",
+                                  "quick": {"n": 60, "len": 30}, "thorough": {"n": 1500, "len": 60}, "search": {"n": 800, "len": 60}})
+PROPS["C11"]["drivers_mod"].append("MassVerif.Driver.Config")
